@@ -120,8 +120,9 @@ Ev(e, st, cx) ==
     [] e.k \in {"var", "idx", "deref"} ->
         (LET lv == ResLv(e, st, cx)
              a == IoAddr(lv, cx)
-             v == Wrap(GetLv(lv, lv.st), lv.ty)
-         IN Res(v, lv.ty, IF lv.ok THEN lv.st ELSE Ub(lv.st), FALSE))
+             raw == GetLv(lv, lv.st)
+             v == Wrap(raw, lv.ty)
+         IN Res(v, lv.ty, IF lv.ok /\ raw >= 0 THEN lv.st ELSE Ub(lv.st), FALSE))
     [] e.k = "aname" -> Res(cx.vt[e.name].addr, UIntTy, st, FALSE)
     [] e.k = "un" ->
         (LET x == Ev(e.e, st, cx)
@@ -233,9 +234,17 @@ Exec(stmts, i, st, cx) ==
              a == IoAddr(lv, cx)
          IN IF st["_A"] < 0 THEN Out(Ub(st), "n")
             ELSE next(LogIo(PutLv(lv, lv.st, st["_A"]), "w", a, st["_A"])))
-    [] s.k = "strobe" -> next(LogIo(st, "w", cx.vt[s.name].addr, -1))
+    \* strobe stores whatever the accumulator holds: known after a load, otherwise the cell becomes unknown (-1;
+    \* a later read of an unknown cell makes the input undecided)
+    [] s.k = "strobe" -> next(LogIo([st EXCEPT ![s.name] = st["_A"]], "w", cx.vt[s.name].addr, st["_A"]))
     [] s.k = "csleep" -> next(st)
-    [] s.k = "asm" -> next(st)     \* menu entries without effect on program variables (NOP)
+    \* inline assembly from the driver's menu, each entry with its stated meaning
+    [] s.k = "asm" ->
+        (CASE s.eff = "none" -> next(st)
+           [] s.eff = "lda" -> next([st EXCEPT !["_A"] = s.n])
+           [] s.eff = "inx" -> next([st EXCEPT !["X"] = (@ + 1) % 256])
+           [] s.eff = "sta" -> (IF st["_A"] < 0 THEN Out(Ub(st), "n")
+                                ELSE next(LogIo([st EXCEPT ![s.name] = st["_A"]], "w", cx.vt[s.name].addr, st["_A"]))))
 
 \* Run a program: main body from an initial assignment of variables.
 InitState(inp, fuel) == inp @@ [k \in {"_fuel", "_ub", "_ret", "_A", "_io"} |->
